@@ -270,6 +270,7 @@ def raw(toks): return ' '.join(v for _, v in toks)
 def extract(path, tag):
     s = strip_comments(open(path).read())
     # drop #[cfg(test)] modules
+    s = re.sub(r'#\[cfg\(test\)\]\s*(?:pub\s+)?mod\s+\w+\s*;', ' ', s)
     s = re.split(r'#\[cfg\((?:all\()?test', s)[0]
     toks = tokenize(s)
     out = []
